@@ -52,13 +52,15 @@ def post_evaluate(hk, self, a, k, res, pv):
     if shape is None:
         return False
     ss = list(dd['sample_size'])
-    if pdim == 1:
-        start = [k.get('start', 0.0)]
-        stop = [k.get('stop', 1.0)]
-    else:
-        start = list(k.get('start', [0.0] * pdim))
-        stop = list(k.get('stop', [1.0] * pdim))
     doms = shape.domain()
+    # an evaluator asked without a range samples the domain of the shape (C01: the grid starts and ends on the domain corners; the
+    # library had defaulted to [0, 1] until N114 - a change that passes no range where the classes pass their domain is no alarm)
+    if pdim == 1:
+        start = [k.get('start', float(doms[0][0]))]
+        stop = [k.get('stop', float(doms[0][1]))]
+    else:
+        start = list(k.get('start', [float(doms[d][0]) for d in range(pdim)]))
+        stop = list(k.get('stop', [float(doms[d][1]) for d in range(pdim)]))
     for d in range(pdim):
         if not (doms[d][0] <= start[d] <= stop[d] <= doms[d][1]):
             return False
